@@ -27,3 +27,10 @@ K('C06.e', engine='symex', harness='C06/sort.cpp', entry='k_sort', tus=['src/Tre
   what='simultaneous_sort/dual_swap (neighbors_heap.cpp): output ascending, (dist,idx) pairs stay a permutation; full recursion executed',
   out='NaN distances; sizes above the bound',
   assumptions=['distances are finite reals (comparison-only code: the real reading is exact for finite doubles)'])
+
+CLAIMS = {}
+NOTES = {}
+NOT_APPLICABLE = {
+    'C14': 'Distributional claim over the whole seed space and ensemble moments; no bounded symbolic assertion implies it and '
+           'the simulators numerics (Eigen/FFT/libm) cannot be encoded; the only solver-decidable clause (generators stay in range) is decided under C13.',
+}
